@@ -27,11 +27,12 @@ def gen_tree(rnd, root):
             if k < .25 and depth < 2:
                 os.mkdir(p)
                 if n != 'empty': fill(p, depth + 1)
+                if rnd.random() < .4: os.chmod(p, rnd.choice([0o1777, 0o2775, 0o750]))
             elif k < .4: os.symlink(rnd.choice(['a', '../b.txt', '/etc/hostname', 'nowhere', 'sub', '.', '../sibling_dir', '../../sibling_dir', '/tmp']), p)
             elif k < .5 and files: os.link(rnd.choice(files), p)
             else:
                 with open(p, 'wb') as f: f.write(rnd.choice([b'', b'x', b'hello\n', os.urandom(300)]))
-                os.chmod(p, rnd.choice([0o644, 0o755, 0o600, 0o444])); files.append(p)
+                os.chmod(p, rnd.choice([0o644, 0o755, 0o600, 0o444, 0o4755, 0o2755, 0o6711, 0o1644])); files.append(p)       # set-uid/set-gid/sticky bits are content too
     fill(root, 0)
 
 def mk_helper():
